@@ -90,7 +90,8 @@ partial def loop (h : IO.FS.Stream) (c : Counters) : IO Counters := do
       let mut msgs := msgs0
       let mut ps := c.ps
       if tag == "C" then
-        ps := { maxRetrans := Ctl.natD (Ctl.lookD (Ctl.kvs (words line)) "maxretrans" "3") }
+        ps := { maxRetrans := Ctl.natD (Ctl.lookD (Ctl.kvs (words line)) "maxretrans" "3"),
+                faultPct := Ctl.natD (Ctl.lookD (Ctl.kvs (words line)) "faultpct" "0") }
       if tag == "X" then
         let p := c.ctl.pend
         if p.ev.isSome then
